@@ -277,6 +277,34 @@ theorem H_agree_mlkem (m : Magics) (qc qs hostKey sig secret : Bytes)
   all_goals simp at hc hs
   all_goals rw [← hc, ← hs]
 
+/-- **H_agree (group exchange)**: the client's fixed request (2048, 2048, 8192), the server's group message
+    (p, 2) for the group it chose, GexInit and GexReply as marshalled: whenever both sides accept they hash the
+    same pre-image, which contains min ‖ n ‖ max ‖ p ‖ g. -/
+theorem H_agree_gex (m : Magics) (p X Y k : Nat) (hostKey sig : Bytes)
+    (h1 : hostKey.length < 2 ^ 32) (h3 : sig.length < 2 ^ 32)
+    (hp : (mpintBody p).length < 2 ^ 32) (hX : (mpintBody X).length < 2 ^ 32) (hY : (mpintBody Y).length < 2 ^ 32)
+    (fc fs : List Field)
+    (hc : gexClient m (31 :: (mpint p ++ mpint 2)) X (33 :: (sshString hostKey ++ mpint Y ++ sshString sig)) k = some fc)
+    (hs : gexServer m (34 :: (u32 2048 ++ u32 2048 ++ u32 8192)) p (32 :: mpint X) hostKey Y k = some fs) :
+    fc = fs := by
+  have h2 : (mpintBody 2).length < 2 ^ 32 := by decide
+  unfold gexClient at hc
+  rw [parse_int_int 31 p 2 hp h2] at hc
+  simp only at hc
+  rw [parse_str_int_str 33 hostKey Y sig h1 hY h3] at hc
+  unfold gexServer gexServerGroup at hs
+  rw [parse_u32x3 34 2048 2048 8192 (by decide) (by decide) (by decide)] at hs
+  have hreq : gexRequestOK (UInt32.ofNat 2048) (UInt32.ofNat 2048) (UInt32.ofNat 8192) = true := by decide
+  have hch : chooseDH (UInt32.ofNat 2048) (UInt32.ofNat 2048) (UInt32.ofNat 8192) = some 2048 := by decide
+  simp only [hreq, hch, Bool.not_true, Bool.false_eq_true, if_false] at hs
+  rw [parse_int 32 X hX] at hs
+  simp only at hs hc
+  repeat' split at hc
+  all_goals (repeat' split at hs)
+  all_goals simp at hc hs
+  all_goals rw [← hc, ← hs]
+  all_goals simp
+
 /-! ## invalid peer values are rejected -/
 
 /-- curve25519: a wrong-length or low-order peer value never yields a pre-image (server side) -/
